@@ -195,7 +195,10 @@ class Exec:
         return V('T', f'(maxl A (map {lam} {self.batch}))', closed=True)
 
     def call(self, n):
-        if n.keywords and not (_u(n.func) == 'np.zeros'):
+        if n.keywords and _u(n.func) in ('np.array', 'np.asarray_chkfinite') and len(n.keywords) == 1 and n.keywords[0].arg == 'dtype' \
+                and _u(n.keywords[0].value) in ('float', 'np.float64'):
+            pass        # np.array(x, dtype=float): a private float64 copy (the model's carrier type T is the float type already)
+        elif n.keywords and not (_u(n.func) == 'np.zeros'):
             self.bad('keyword arguments', n)
         fn = n.func
         args = n.args
